@@ -16,65 +16,153 @@ open Ford Ford.Fixed
     `__convert` and `continueLine`, regenerated from the source on every run
     (`translate/c14.py`), are the ones the model uses: comment characters,
     the `len(line) <= 6` / `> 73` thresholds, the column limit 72 (slice and
-    both `ljust`s), the `$omp` sentinel and the `0` of column 6. -/
+    both `ljust`s), the `$omp` sentinel and the `0` of column 6; and the
+    overflow mark of the variant read from the source (`sourceVariant`) is the
+    literal that stands in `excess_line = ... + line[72:]`. -/
 theorem model_constants_match_source :
     (∀ c : Char, commentHead (some c) = Gen.commentChars.contains c) ∧
     Gen.shortThreshold = 6 ∧ Gen.longThreshold = 73 ∧ Gen.colLimit = 72 ∧ Gen.padColumns = [72] ∧
-    Gen.ompSentinel = ['$', 'o', 'm', 'p'] ∧ Gen.notContChar = ['0'] := by
-  refine ⟨fun c => ?_, by decide, by decide, by decide, by decide, by decide, by decide⟩
+    Gen.ompSentinel = ['$', 'o', 'm', 'p'] ∧ Gen.notContChar = ['0'] ∧
+    excessMark sourceVariant = Gen.excessLiteral := by
+  refine ⟨fun c => ?_, by decide, by decide, by decide, by decide, by decide, by decide, by decide⟩
   have h : Gen.commentChars = ['c', 'C', '*', '!'] := by decide
   rw [h]
   simp only [commentHead, List.contains_cons, List.contains_nil, Bool.or_false, Bool.or_assoc]
 
-/-- The converter is line-for-line: whatever the input (junk included) and
-    whichever limit setting, `convertToFree` yields exactly one output line per
+/-- The converter is line-for-line: whatever the input (junk included),
+    whichever limit setting and whichever variant of the code, `convertToFree` yields exactly one output line per
     input line, so the hold-back in `linestack` never drops or duplicates a
     line and source line numbers of the `.f` file stay valid. -/
-theorem convertToFree_length (lim : Bool) (lines : List Str) :
-    (convertToFree lim lines).length = lines.length := by
+theorem convertToFree_length (v : Variant) (lim : Bool) (lines : List Str) :
+    (convertToFree v lim lines).length = lines.length := by
   simp [convertToFree, convGo_length]
 
 /-- **Simulation.**  For every well-formed fixed-form file - any number of
     statements, any number of continuation lines each, any continuation
     character, any label field, comment lines of every style / blank lines /
     preprocessor lines anywhere (also between continuation lines), any text
-    beyond column 72, either limit setting - the stateful converter
+    beyond column 72, either limit setting, every variant of the code (for the
+    repaired code also blank lines of any length and `!` comment lines starting
+    in column 7 or later, anywhere) - the stateful converter
     (`linestack` hold-back, column analysis) produces exactly the equivalent
     free-form file `renderFree`: same lines in the same order, ` &` on exactly
     the lines whose statement goes on, labels in front, comment lines as `!`
     comments. -/
-theorem convertToFree_simulation (lim : Bool) (p : List Item) (h : WF p) :
-    convertToFree lim (renderFixed p) = renderFree lim p := by
-  have := convGo_sim lim p [] h.1 (Or.inr h.2)
+theorem convertToFree_simulation (v : Variant) (lim : Bool) (p : List Item) (h : WF v p) :
+    convertToFree v lim (renderFixed p) = renderFree v lim p := by
+  have := convGo_sim v lim p [] h.1 (Or.inr h.2)
   simpa [convertToFree, h.2] using this
+
+/-- non-vacuity of the repaired variant's larger class: a statement, a blank line of 9
+    blanks, a `!` comment line starting in column 9 and the continuation line form a
+    well-formed file for the repaired code (and not for the code as it is) -/
+example : WF Variant.repaired [.init blanks5 ' ' "x = a +".toList, .blank 9, .bang7 2 " note\n".toList,
+    .cont '&' " b".toList] ∧
+    (Item.blank 9).ok Variant.asIs = false ∧ (Item.bang7 2 " note\n".toList).ok Variant.asIs = false := by
+  refine ⟨⟨by decide, by decide⟩, by decide, by decide⟩
+
+/-- **Held-back lines never separate a statement from its continuation.**  A
+    statement line, then any number of lines that are comment lines for the
+    variant (column-1 comments of every style, `!` in columns 2-5, blank lines,
+    preprocessor lines - and, for the repaired code, blank lines of any length
+    and `!` comment lines starting in column 7 or later), then a continuation
+    line: the ` &` goes on the statement line, the lines in between come out as
+    they are in free form, whatever their number. -/
+theorem held_back_lines_transparent (v : Variant) (lim : Bool) (lab5 : Str) (c6 : Char) (body : Str)
+    (fill : List Item) (c6' : Char) (body' : Str)
+    (ha : (Item.init lab5 c6 body).ok v = true)
+    (hf : ∀ f ∈ fill, f.ok v = true ∧ f.isRegular = false)
+    (hb : (Item.cont c6' body').ok v = true) :
+    convertToFree v lim (renderFixed (.init lab5 c6 body :: (fill ++ [.cont c6' body']))) =
+      freeLine v lim (.init lab5 c6 body) true ::
+        (fill.map (fun f => freeLine v lim f false) ++ [freeLine v lim (.cont c6' body') false]) := by
+  have hreg : ∀ f ∈ fill, f.isRegular = false := fun f hm => (hf f hm).2
+  have hwf : WF v (.init lab5 c6 body :: (fill ++ [.cont c6' body'])) := by
+    refine ⟨fun it hm => ?_, by simp [nextIsCont, Item.isRegular, Item.isCont]⟩
+    simp only [List.mem_cons, List.mem_append, List.not_mem_nil, or_false] at hm
+    rcases hm with rfl | hm | rfl
+    · exact ha
+    · exact (hf it hm).1
+    · exact hb
+  rw [convertToFree_simulation v lim _ hwf]
+  simp only [renderFree, Item.isRegular, Bool.true_and]
+  rw [nextIsCont_fill fill _ hreg, renderFree_fill v lim fill _ hreg]
+  simp [nextIsCont, renderFree, Item.isRegular, Item.isCont]
+
+/-- **Repaired code: blank-only lines and column-7 comment lines are comment
+    lines** (the exclusion of finding
+    `C14-col7-comment-or-blank-line-between-continuation` is not needed any
+    more): with `blankShort` a line of `n` blanks - any `n` - and with
+    `col7Comment` a line whose first non-blank character is a `!` in column 7
+    or later are not statement-carrying, never continuation lines, and come out
+    unchanged (the blank line without its first six columns); so by
+    `held_back_lines_transparent` they cannot take the ` &` of the statement
+    before them. -/
+theorem blank_and_col7_comment_lines_held_back_repaired (v : Variant) (lim : Bool) (n k : Nat) (rest : Str) :
+    (v.blankShort = true →
+      (analyse v lim (List.replicate n ' ' ++ ['\n'])).regular = false ∧
+      (analyse v lim (List.replicate n ' ' ++ ['\n'])).cont = false ∧
+      (analyse v lim (List.replicate n ' ' ++ ['\n'])).conv = List.replicate (n - 6) ' ' ++ ['\n']) ∧
+    (v.col7Comment = true →
+      (analyse v lim (List.replicate (6 + k) ' ' ++ '!' :: rest)).regular = false ∧
+      (analyse v lim (List.replicate (6 + k) ' ' ++ '!' :: rest)).cont = false ∧
+      (analyse v lim (List.replicate (6 + k) ' ' ++ '!' :: rest)).conv
+        = List.replicate (6 + k) ' ' ++ '!' :: rest) := by
+  constructor
+  · intro hv
+    rw [analyse_blank v lim n (by simp [hv])]
+    exact ⟨rfl, rfl, rfl⟩
+  · intro hv
+    rw [analyse_bang7 v lim k rest hv]
+    exact ⟨rfl, rfl, rfl⟩
 
 /-- **Continuation is column 6, any character.**  A line with blank columns 1-5
     is a continuation line iff column 6 is neither blank nor `0` - for every
-    character, every body and both limit settings; it is always a
-    statement-carrying line. -/
-theorem continuation_any_char (lim : Bool) (c6 : Char) (body : Str) :
-    (analyse lim (blanks5 ++ c6 :: (body ++ ['\n']))).regular = true ∧
-    (analyse lim (blanks5 ++ c6 :: (body ++ ['\n']))).cont = !(isSpace c6 || c6 == '0') := by
-  have := analyse_code lim ' ' ' ' ' ' ' ' ' ' c6 body (by decide) (by decide) (by decide)
-  simp only [blanks5, List.cons_append, List.nil_append]
-  rw [this]; exact ⟨rfl, rfl⟩
+    character, every body, both limit settings and every variant of the code;
+    it is a statement-carrying line (always for the code as it is; for the
+    repaired code unless column 6 is blank too - then the line may be a
+    blank-only line or a column-7 comment line). -/
+theorem continuation_any_char (v : Variant) (lim : Bool) (c6 : Char) (body : Str) :
+    ((isSpace c6 = false ∨ (v.blankShort = false ∧ v.col7Comment = false)) →
+      (analyse v lim (blanks5 ++ c6 :: (body ++ ['\n']))).regular = true) ∧
+    (analyse v lim (blanks5 ++ c6 :: (body ++ ['\n']))).cont = !(isSpace c6 || c6 == '0') := by
+  by_cases hc : isSpace c6 = false ∨ (v.blankShort = false ∧ v.col7Comment = false)
+  · have := analyse_code v lim ' ' ' ' ' ' ' ' ' ' c6 body (by decide) (by decide) (by decide)
+      (by rcases hc with h | h <;> simp [isBlank, h]) (by rcases hc with h | h <;> simp [isBlank, h])
+    simp only [blanks5, List.cons_append, List.nil_append]
+    rw [this]; exact ⟨fun _ => rfl, rfl⟩
+  · have h6 : isSpace c6 = true := by
+      cases h : isSpace c6
+      · exact absurd (Or.inl h) hc
+      · rfl
+    refine ⟨fun h => absurd h hc, ?_⟩
+    simp [analyse, blanks5, h6]
 
 /-- **Labels.**  Whatever stands in columns 1-5 of a statement line (not a
     comment character in column 1, no `!`), the line is *never* taken for a
     continuation because of it - only column 6 decides - and the converted
     line is the label (lower-cased, blanks stripped, one blank after it)
-    followed by the statement field. -/
-theorem label_leads_statement (lim : Bool) (a b c d e c6 : Char) (body : Str)
+    followed by the statement field.  `fieldOk` holds of every line for the
+    code as it is (`fieldOk_asIs`); for the repaired code it excludes the
+    blank-only line and the column-7 comment line, which are comment lines
+    there. -/
+theorem label_leads_statement (v : Variant) (lim : Bool) (a b c d e c6 : Char) (body : Str)
     (ha : commentHead (some a) = false) (ha' : a ≠ '#') (hb : [b, c, d, e].contains '!' = false)
-    (h6 : isSpace c6 = true ∨ c6 = '0') (hlen : body.length ≤ 66) :
-    (analyse lim (a :: b :: c :: d :: e :: c6 :: (body ++ ['\n']))).cont = false ∧
-    (analyse lim (a :: b :: c :: d :: e :: c6 :: (body ++ ['\n']))).conv
+    (h6 : isSpace c6 = true ∨ c6 = '0') (hlen : body.length ≤ 66)
+    (hf : fieldOk v [a, b, c, d, e] c6 body = true) :
+    (analyse v lim (a :: b :: c :: d :: e :: c6 :: (body ++ ['\n']))).cont = false ∧
+    (analyse v lim (a :: b :: c :: d :: e :: c6 :: (body ++ ['\n']))).conv
       = labelOut [a, b, c, d, e] ++ body ++ ['\n'] := by
-  rw [analyse_code lim a b c d e c6 body ha ha' hb]
+  obtain ⟨hs, hn⟩ := fieldOk_hyps v a b c d e c6 body hf
+  rw [analyse_code v lim a b c d e c6 body ha ha' hb hs hn]
   have h66 : ¬ (66 < body.length) := by omega
   refine ⟨?_, ?_⟩
   · rcases h6 with h | h <;> simp [h]
   · simp [freeCode, h66]
+
+/-- `fieldOk` is no restriction for the code as it is, and holds of any labelled line -/
+example (lab5 : Str) (c6 : Char) (body : Str) : fieldOk Variant.asIs lab5 c6 body = true := fieldOk_asIs lab5 c6 body
+example : fieldOk Variant.repaired "  10 ".toList ' ' " ! x".toList = true := by decide
 
 /-- a numeric label placed anywhere in the label field comes out as the digits -/
 example : labelOut "  10 ".toList = "10 ".toList := by decide
@@ -85,13 +173,49 @@ example : labelOut "     ".toList = [] := by decide
     an `$omp` sentinel) becomes the same `!` comment whatever the style, is not
     a statement-carrying line and never a continuation - so it is held back and
     cannot separate a statement from its continuation lines. -/
-theorem comment_line_any_style (lim : Bool) (c : Char) (rest : Str)
+theorem comment_line_any_style (v : Variant) (lim : Bool) (c : Char) (rest : Str)
     (hc : commentHead (some c) = true) (ho : lower (rest.take 4) ≠ ['$', 'o', 'm', 'p']) :
-    (analyse lim (c :: rest)).conv = '!' :: rest ∧
-    (analyse lim (c :: rest)).regular = false ∧
-    (analyse lim (c :: rest)).cont = false := by
-  have h := analyse_item lim (.comment c rest) (by simp [Item.ok, hc, ho])
+    (analyse v lim (c :: rest)).conv = '!' :: rest ∧
+    (analyse v lim (c :: rest)).regular = false ∧
+    (analyse v lim (c :: rest)).cont = false := by
+  have h := analyse_item v lim (.comment c rest) (by simp [Item.ok, hc, ho])
   simpa [fixedLine, freeLine, Item.isRegular, Item.isCont] using And.intro h.1 (And.intro h.2.1 h.2.2.1)
+
+/-- **The OpenMP sentinel is exactly `$omp`.**  A line whose column 1 is a comment
+    character is statement-carrying (flushes the held-back lines, has its column 6
+    read as a continuation mark) iff its columns 2-5 are, case-insensitively,
+    exactly the sentinel regenerated from the source and the line is longer than 6
+    characters - whatever else stands in the comment: `$`, `$$$`, RCS keywords,
+    commented-out continuation lines, any column-6 character, any length. -/
+theorem omp_sentinel_exact (v : Variant) (lim : Bool) (c : Char) (rest : Str)
+    (hc : commentHead (some c) = true) :
+    (analyse v lim (c :: rest)).regular =
+      (decide ((c :: rest).length > 6) && lower (rest.take 4) == Gen.ompSentinel) ∧
+    ((analyse v lim (c :: rest)).cont = true → lower (rest.take 4) = Gen.ompSentinel) := by
+  have hs : Gen.ompSentinel = ['$', 'o', 'm', 'p'] := by decide
+  have hne : (c == '#') = false := by
+    cases hh : c == '#'
+    · rfl
+    · have : c = '#' := by simpa using hh
+      subst this; simp [commentHead] at hc
+  by_cases ho : lower (rest.take 4) = ['$', 'o', 'm', 'p']
+  · have hsp : isSpace c = false := by
+      simp only [commentHead, Bool.or_eq_true, beq_iff_eq] at hc
+      rcases hc with ((rfl | rfl) | rfl) | rfl <;> decide
+    have hb : isBlank (c :: rest) = false := by simp [isBlank, hsp]
+    rw [hs]
+    refine ⟨?_, fun _ => ho⟩
+    simp [analyse, isShortLine, hc, ho, hne, hb]
+    by_cases hl : List.length rest ≤ 5
+    · have : ¬ (6 < List.length rest + 1) := by omega
+      simp [hl, this]
+    · have : 6 < List.length rest + 1 := by omega
+      simp [hl, this]
+  · have h := comment_line_any_style v lim c rest hc ho
+    rw [hs]
+    refine ⟨?_, fun hcont => ?_⟩
+    · rw [h.2.1]; simp [ho]
+    · rw [h.2.2] at hcont; exact absurd hcont (by simp)
 
 /-- **Column 72, limit on.**  In the converted line of a statement-carrying
     line longer than 72 columns, everything beyond column 72 stands behind a
@@ -99,19 +223,19 @@ theorem comment_line_any_style (lim : Bool) (c : Char) (rest : Str)
     ` &` if continued) is comment-free and quote-closed (`Atoms`, the reader's
     own notion), the reader's comment scanner cuts the line exactly there, so
     what reaches the statement is the visible part only. -/
-theorem col72_limit_on_partial (lab body : Str) (amp : Bool) (hlong : body.length > 66)
+theorem col72_limit_on_partial (v : Variant) (lab body : Str) (amp : Bool) (hlong : body.length > 66)
     (hclean : Atoms (if amp then rstrip (lab ++ body.take 66) ++ [' ', '&'] else rstrip (lab ++ body.take 66))) :
-    ∃ vis, freeCode true lab body amp = vis ++ '!' :: (body.drop 66 ++ ['\n']) ∧
+    ∃ vis, freeCode v true lab body amp = vis ++ (excessMark v ++ (body.drop 66 ++ ['\n'])) ∧
       72 ≤ vis.length ∧
-      comScan [] (freeCode true lab body amp) = some vis.length ∧
+      comScan [] (freeCode v true lab body amp) = some vis.length ∧
       rstrip vis = (if amp then rstrip (lab ++ body.take 66) ++ [' ', '&'] else rstrip (lab ++ body.take 66)) := by
   refine ⟨ljust 72 (if amp then rstrip (lab ++ body.take 66) ++ [' ', '&'] else rstrip (lab ++ body.take 66)), ?_, ?_, ?_, ?_⟩
   · simp [freeCode, hlong]
   · simp [ljust]; omega
-  · have : freeCode true lab body amp =
+  · have : freeCode v true lab body amp =
         ljust 72 (if amp then rstrip (lab ++ body.take 66) ++ [' ', '&'] else rstrip (lab ++ body.take 66))
-          ++ '!' :: (body.drop 66 ++ ['\n']) := by simp [freeCode, hlong]
-    rw [this]
+          ++ (excessMark v ++ (body.drop 66 ++ ['\n'])) := by simp [freeCode, hlong]
+    rw [this, excessMark_cons, List.cons_append]
     exact comScan_after_atoms _ _ (atoms_ljust _ _ hclean)
   · rw [rstrip_ljust]
     cases amp
@@ -120,12 +244,37 @@ theorem col72_limit_on_partial (lab body : Str) (amp : Bool) (hlong : body.lengt
       have : rstrip (lab ++ List.take 66 body) ++ [' ', '&'] = (rstrip (lab ++ List.take 66 body) ++ [' ']) ++ ['&'] := by simp
       rw [this, rstrip_of_last _ _ (by decide)]
 
+/-- **Repaired code: the sequence field never forms a doc mark** (the exclusion of
+    finding `C14-sequence-field-starting-with-bang` is not needed any more).  With
+    `spacedExcess` the text beyond column 72 stands behind `! `: whatever that text
+    is (also when it starts with `!`, `!!`, `>`...), for every documentation mark
+    that does not begin with a blank the reader's doc-mark scanner finds nothing
+    in the converted line when the visible part is comment-free and quote-closed;
+    the sequence field is an ordinary comment (`col72_limit_on_partial`). -/
+theorem sequence_field_never_doc_repaired (v : Variant) (hv : v.spacedExcess = true)
+    (lab body : Str) (amp : Bool) (hlong : body.length > 66)
+    (hclean : Atoms (if amp then rstrip (lab ++ body.take 66) ++ [' ', '&'] else rstrip (lab ++ body.take 66)))
+    (m : Char) (mark : Str) (hm : m ≠ ' ') :
+    comScan (m :: mark) (freeCode v true lab body amp) = none := by
+  have : freeCode v true lab body amp =
+      ljust 72 (if amp then rstrip (lab ++ body.take 66) ++ [' ', '&'] else rstrip (lab ++ body.take 66))
+        ++ '!' :: (' ' :: (body.drop 66 ++ ['\n'])) := by
+    simp [freeCode, hlong, excessMark, hv]
+  rw [this]
+  simp only [comScan]
+  rw [comScanAux_of_atoms _ _ _ 0 (atoms_ljust _ _ hclean)]
+  have : (' ' == m) = false := by
+    cases h : ' ' == m
+    · rfl
+    · exact absurd (by simpa using h : ' ' = m).symm hm
+  simp [startsWith, this]
+
 /-- **Column 72, limit off.**  With the limit off nothing is cut: no line is
     ever classified long, no `!` is inserted, and the converted line of every
     statement-carrying line of a well-formed file is label + the *whole* body. -/
-theorem col72_limit_off (lab body : Str) (l : Str) :
-    (analyse false l).long = false ∧ (analyse false l).excess = [] ∧
-    freeCode false lab body false = lab ++ body ++ ['\n'] := by
+theorem col72_limit_off (v : Variant) (lab body : Str) (l : Str) :
+    (analyse v false l).long = false ∧ (analyse v false l).excess = [] ∧
+    freeCode v false lab body false = lab ++ body ++ ['\n'] := by
   simp [analyse, freeCode]
 
 /-- **Continuation mark reaches the reader** (what still holds of "the output is
@@ -134,13 +283,13 @@ theorem col72_limit_off (lab body : Str) (l : Str) :
     free-form line ends in `&` for the reader (no comment is detected, the last
     non-blank character is `&`).  The excluded class - a `!` comment or doc on a
     continued line - is `inline_comment_on_continued_line_witness`. -/
-theorem continuation_mark_visible_partial (lim : Bool) (lab body : Str)
+theorem continuation_mark_visible_partial (v : Variant) (lim : Bool) (lab body : Str)
     (hshort : lim = false ∨ body.length ≤ 66)
     (h1 : comScan [] (rstrip (lab ++ body)) = none)
     (h2 : qscan .out (rstrip (lab ++ body)) = .out) :
-    comScan [] (dropNL (freeCode lim lab body true)) = none ∧
-    (strip (dropNL (freeCode lim lab body true))).getLast? = some '&' := by
-  have hf : freeCode lim lab body true = rstrip (lab ++ body) ++ [' ', '&', '\n'] := by
+    comScan [] (dropNL (freeCode v lim lab body true)) = none ∧
+    (strip (dropNL (freeCode v lim lab body true))).getLast? = some '&' := by
+  have hf : freeCode v lim lab body true = rstrip (lab ++ body) ++ [' ', '&', '\n'] := by
     rcases hshort with h | h
     · simp [freeCode, h]
     · have : ¬ (66 < body.length) := by omega
@@ -166,7 +315,7 @@ example : comScan [] (rstrip "call f(a, 'it''s ! no comment',  ".toList) = none 
     reader's comment scanner cuts the line before it, so the continuation mark
     is lost. -/
 theorem inline_comment_on_continued_line_witness :
-    convertToFree true ["      x = a + ! c\n".toList, "     & b\n".toList]
+    convertToFree Variant.asIs true ["      x = a + ! c\n".toList, "     & b\n".toList]
       = ["x = a + ! c &\n".toList, " b\n".toList] ∧
     comScan [] "x = a + ! c &".toList = some 8 := by decide
 
@@ -176,16 +325,16 @@ theorem inline_comment_on_continued_line_witness :
     line: the statement line is released without ` &`, the mark lands on the
     comment / blank line. -/
 theorem col7_comment_between_witness :
-    convertToFree true ["      x = a +\n".toList, "      ! note\n".toList, "     & b\n".toList]
+    convertToFree Variant.asIs true ["      x = a +\n".toList, "      ! note\n".toList, "     & b\n".toList]
       = ["x = a +\n".toList, "! note &\n".toList, " b\n".toList] ∧
-    convertToFree true ["      x = a +\n".toList, "        \n".toList, "     & b\n".toList]
+    convertToFree Variant.asIs true ["      x = a +\n".toList, "        \n".toList, "     & b\n".toList]
       = ["x = a +\n".toList, " &\n".toList, " b\n".toList] := by decide
 
 /-- **Finding C14-sequence-field-starting-with-bang.**  Limit on, the text
     beyond column 72 starts with `!`: behind the inserted `!` it reads `!!…`,
     which the reader takes for a doc comment (doc mark `!`). -/
 theorem sequence_field_bang_witness :
-    (analyse true ("      x = 1".toList ++ List.replicate 61 ' ' ++ "!SEQ\n".toList)).conv
+    (analyse Variant.asIs true ("      x = 1".toList ++ List.replicate 61 ' ' ++ "!SEQ\n".toList)).conv
       = "x = 1".toList ++ List.replicate 67 ' ' ++ "!!SEQ\n".toList ∧
     comScan ['!'] ("x = 1".toList ++ List.replicate 67 ' ' ++ "!!SEQ".toList) = some 72 := by decide
 
@@ -193,8 +342,35 @@ theorem sequence_field_bang_witness :
     doc comment that runs past column 72: the doc mark is found before column
     72, so the text behind the inserted `!` stays part of the doc. -/
 theorem doc_past_col72_witness :
-    (analyse true ("      x = 1 !! d".toList ++ List.replicate 56 'o' ++ "c tail\n".toList)).conv
+    (analyse Variant.asIs true ("      x = 1 !! d".toList ++ List.replicate 56 'o' ++ "c tail\n".toList)).conv
       = "x = 1 !! d".toList ++ List.replicate 56 'o' ++ "      !c tail\n".toList ∧
     comScan ['!'] ("x = 1 !! d".toList ++ List.replicate 56 'o' ++ "      !c tail".toList) = some 6 := by decide
+
+/-- the inline-comment finding is not touched by the candidate repair -/
+theorem inline_comment_on_continued_line_witness_repaired :
+    convertToFree Variant.repaired true ["      x = a + ! c\n".toList, "     & b\n".toList]
+      = ["x = a + ! c &\n".toList, " b\n".toList] := by decide
+
+/-- **Repaired code, the witnesses of finding
+    C14-col7-comment-or-blank-line-between-continuation come out right:** the
+    ` &` is on the statement line, the comment / blank line is passed through. -/
+theorem col7_comment_between_repaired :
+    convertToFree Variant.repaired true ["      x = a +\n".toList, "      ! note\n".toList, "     & b\n".toList]
+      = ["x = a + &\n".toList, "      ! note\n".toList, " b\n".toList] ∧
+    convertToFree Variant.repaired true ["      x = a +\n".toList, "        \n".toList, "     & b\n".toList]
+      = ["x = a + &\n".toList, "  \n".toList, " b\n".toList] := by decide
+
+/-- **Repaired code, the witness of finding C14-sequence-field-starting-with-bang
+    comes out right:** `!SEQ` stands behind `! `, the doc-mark scanner finds nothing. -/
+theorem sequence_field_bang_repaired :
+    (analyse Variant.repaired true ("      x = 1".toList ++ List.replicate 61 ' ' ++ "!SEQ\n".toList)).conv
+      = "x = 1".toList ++ List.replicate 67 ' ' ++ "! !SEQ\n".toList ∧
+    comScan ['!'] ("x = 1".toList ++ List.replicate 67 ' ' ++ "! !SEQ".toList) = none ∧
+    comScan [] ("x = 1".toList ++ List.replicate 67 ' ' ++ "! !SEQ".toList) = some 72 := by decide
+
+/-- the doc-beyond-column-72 finding is not repaired: the tail stays part of the doc -/
+theorem doc_past_col72_witness_repaired :
+    (analyse Variant.repaired true ("      x = 1 !! d".toList ++ List.replicate 56 'o' ++ "c tail\n".toList)).conv
+      = "x = 1 !! d".toList ++ List.replicate 56 'o' ++ "      ! c tail\n".toList := by decide
 
 end Ford.C14
